@@ -75,7 +75,7 @@ func (c *POCase) isPlural() bool { return len(c.Parts) == 1 && c.Parts[0].K == "
 
 // Run is the entry point for C11.
 func Run(ctx *core.Ctx) {
-	ctx.Rule = "cases: messages = bodies of <= 3 (thorough 4) parts from PoolC11 of SoyPO.tla ($a.y $b.y $y $y_1 $y|truncate:1,false $n+1 ($n+1)*2 $n+1*2 <a> <a href=x> </a> <br/>, two texts) and plurals {case 1}/{default} over 2 subjects with case bodies of <= 1 (thorough 2) parts from a 6-part pool, all enumerated by TLC with expected msgid/msgid_plural/var= and expected renderings for n in {0,1,2,3,5,11,21,22,101}; every message is placed at top level, every third also inside a foreach and every third behind a call, and half of them also together with one or two OTHER messages in one template body (a quarter of those inside a foreach); catalogues: none, identity / reversing / partial for the locales ja (1 form), en (2), ru (3), and identity catalogues whose Plural-Forms header differs from the locale's built-in rule (fr with the en rule, ja with the ru rule, en with the cs rule; plural messages, Go); rendered by soyhtml and by the generated JavaScript in node. A case is non-trivial if it has a placeholder or a plural; distinct by family id"
+	ctx.Rule = "cases: messages = bodies of <= 3 (thorough 4) parts from PoolC11 of SoyPO.tla ($a.y $b.y $y $y_1 $y|truncate:1,false $n+1 ($n+1)*2 $n+1*2 <a> <a href=x> </a> <br/>, two texts), bodies of <= 3 parts over literal braces and brace look-alikes ({ } {} {lower} {A B}) next to placeholders, and plurals {case 1}/{default} over 2 subjects with case bodies of <= 1 (thorough 2) parts from a 6-part pool, all enumerated by TLC with expected msgid/msgid_plural/var= and expected renderings for n in {0,1,2,3,5,11,21,22,101}; every message is placed at top level, every third also inside a foreach and every third behind a call, and half of them also together with one or two OTHER messages in one template body (a quarter of those inside a foreach); catalogues: none, identity / reversing / partial for the locales ja (1 form), en (2), ru (3), and identity catalogues whose Plural-Forms header differs from the locale's built-in rule (fr with the en rule, ja with the ru rule, en with the cs rule; plural messages, Go); rendered by soyhtml and by the generated JavaScript in node. A case is non-trivial if it has a placeholder or a plural; distinct by family id"
 	ctx.Assumptions = append(ctx.Assumptions,
 		"oracle = SoyPO.tla on top of SoyMsg.tla and SoyExpr.tla; messages PO cannot carry (plural cases other than {1, default}, empty msgid) are only checked to be refused / are not judged",
 		"print values contain no HTML-special characters (autoescaping is C03's subject); the plural subject is a non-negative integer",
@@ -173,6 +173,7 @@ func runDeviations(ctx *core.Ctx) {
 		{"same_ignores_directives", "RoundTripIdentity"},
 		{"builtin_rule_wins", "HeaderWins"},
 		{"lookup_cache_by_name", "SeqIsConcat"},
+		{"resume_after_close_brace", "RoundTripIdentity"},
 	}
 	self := map[string]interface{}{}
 	var wg sync.WaitGroup
